@@ -28,6 +28,7 @@ import (
 	"sort"
 	"strconv"
 	"strings"
+	"sync"
 	"testing"
 	"time"
 
@@ -1516,6 +1517,7 @@ func TestVerifWire(t *testing.T) {
 	nmut := vCases(90, 1500) * vBoost
 	only, onlyFail := vOnly("VERIF_ONLY"), vOnly("VERIF_ONLY_FAIL")
 	directed := only != nil || onlyFail != nil
+	retOnly := os.Getenv("VERIF_RETAIN_ONLY") != ""
 	if directed {
 		master = master.fork(0xd1ec7ed) // other inputs than the first run
 	}
@@ -1579,6 +1581,10 @@ func TestVerifWire(t *testing.T) {
 			row["enc2_same"] = err == nil && bytes.Equal(b, b2)
 			out.emit(row)
 			bases = append(bases, b)
+			vAllBases = append(vAllBases, vRetCase{false, false, b})
+		}
+		if retOnly {
+			continue // VERIF_RETAIN_ONLY: only the valid encodings are needed (race run)
 		}
 		var tb [2]byte
 		binary.BigEndian.PutUint16(tb[:], uint16(mt))
@@ -1693,6 +1699,11 @@ func TestVerifWire(t *testing.T) {
 		}
 		return
 	}
+	if retOnly {
+		vFailures(out, master, nil)
+		vRetention(out, master.fork(1<<51))
+		return
+	}
 	// ---- size boundary: messages of 65533/65534 body bytes ----
 	for _, n := range []int{65529, 65530, 65531, 65532, 65533} {
 		for _, mt := range []MessageType{MsgPing, MsgPong, CustomTypeStart, MsgUpdateFee} {
@@ -1747,6 +1758,256 @@ func TestVerifWire(t *testing.T) {
 	}
 
 	vFailures(out, master, nil)
+	vRetention(out, master.fork(1<<51))
+}
+
+// ---------------------------------------------------------------- retention / process-wide state
+//
+// The codec must be PURE: a decoded value stays what it was -- same deep canonical dump, same
+// re-encoding -- after arbitrarily many further decodes / encodes of other messages in the
+// same process (no pooled / package-level buffer may be shared with a returned value), it
+// must not alias the INPUT bytes (the input is overwritten right after decode), and bytes
+// returned by an earlier encode must not change.  Windows of up to 128 consecutive cases are
+// kept alive: (a) all valid encodings of all message types and failure codes, shuffled;
+// (b) per message type, runs with decreasing then increasing extension / payload sizes (so
+// that a reused buffer fits); (c) the same cases split over 8 goroutines.  Every 16 cases
+// all retained values are re-dumped (the culprits are then among the last 16 inputs); at
+// the end of the window they are re-dumped and re-encoded.
+
+type vRetCase struct {
+	fail, full bool // onion failure (DecodeFailureMessage / DecodeFailure) or message
+	b          []byte
+}
+
+var vAllBases []vRetCase
+
+type vKept struct {
+	c     vRetCase
+	in    []byte // the slice handed to the decoder (overwritten after decode)
+	m     any
+	dump  string // canonical dump after the first encode (Encode may rewrite ExtraData)
+	enc   []byte // private copy of the first re-encoding
+	encR  []byte // the slice the encoder returned, kept as it is
+	noEnc bool
+	idx   int
+}
+
+func vRetDecode(c vRetCase, in []byte) (any, bool) {
+	if c.fail {
+		m, err, pan := vDecFail(in, c.full)
+		return m, err == nil && pan == "" && m != nil
+	}
+	m, err, pan, _ := vRead(in)
+	return m, err == nil && pan == "" && m != nil
+}
+
+func vRetEncode(c vRetCase, m any) ([]byte, bool) {
+	if c.fail {
+		b, err, pan := vEncFail(m.(FailureMessage), c.full)
+		return b, err == nil && pan == ""
+	}
+	b, err, pan := vWrite(m.(Message))
+	return b, err == nil && pan == ""
+}
+
+type vRetStat struct{ cases, kept, bad int }
+
+func vRetReport(out *vWriter, st *vRetStat, kind, stream string, k *vKept, window []vRetCase, lo, hi int, extra string) {
+	st.bad++
+	if st.bad > 6 || out == nil {
+		return
+	}
+	var culprits []string
+	for i := lo; i < hi && len(culprits) < 16; i++ {
+		if i >= 0 && i < len(window) && i != k.idx {
+			c := window[i].b
+			if len(c) > 8192 {
+				c = c[:8192]
+			}
+			culprits = append(culprits, whx(c))
+		}
+	}
+	t := -1
+	if len(k.c.b) >= 2 {
+		t = int(binary.BigEndian.Uint16(k.c.b))
+	}
+	out.emit(vRow{"k": "retain", "ok": false, "kind": kind, "stream": stream, "t": t, "failure": k.c.fail,
+		"b": whx(k.c.b), "culprits": culprits, "detail": extra})
+}
+
+// vRetWindow decodes the cases of one window in order, keeping every decoded value alive.
+func vRetWindow(out *vWriter, window []vRetCase, stream string, st *vRetStat, verifyNow bool) []*vKept {
+	var kept []*vKept
+	check := func(upto int, final bool) {
+		lo := upto - 16
+		if final {
+			lo = 0
+		}
+		for _, k := range kept {
+			if k.dump == "" {
+				continue
+			}
+			if d := vDump(k.m); d != k.dump {
+				vRetReport(out, st, "retained value changed after later decodes", stream, k, window, max(lo, k.idx+1), upto,
+					vDiff(k.dump, d))
+				k.dump = "" // reported
+				continue
+			}
+			if !bytes.Equal(k.encR, k.enc) {
+				vRetReport(out, st, "encoded bytes returned earlier changed after later encodes", stream, k, window,
+					max(lo, k.idx+1), upto, "")
+				k.dump = ""
+				continue
+			}
+			if final && !k.noEnc {
+				if e, ok := vRetEncode(k.c, k.m); !ok || !bytes.Equal(e, k.enc) {
+					vRetReport(out, st, "retained value re-encodes differently after later decodes", stream, k, window,
+						k.idx+1, upto, "")
+					k.dump = ""
+				}
+			}
+		}
+	}
+	for i, c := range window {
+		st.cases++
+		in := append([]byte{}, c.b...)
+		m, ok := vRetDecode(c, in)
+		if !ok {
+			continue
+		}
+		k := &vKept{c: c, in: in, m: m, idx: i}
+		d0 := vDump(m)
+		e, ok := vRetEncode(c, m)
+		if ok {
+			k.encR, k.enc = e, append([]byte{}, e...)
+		} else {
+			k.noEnc = true
+		}
+		k.dump = vDump(m)
+		// the decoded value must not share memory with its input
+		for j := range in {
+			in[j] ^= 0xa5
+		}
+		if d := vDump(m); d != k.dump {
+			vRetReport(out, st, "decoded value aliases its input bytes", stream, k, window, 0, 0, vDiff(k.dump, d))
+			k.dump = ""
+		}
+		_ = d0
+		kept = append(kept, k)
+		st.kept++
+		if verifyNow && (i+1)%16 == 0 {
+			check(i+1, false)
+		}
+	}
+	if verifyNow {
+		check(len(window), true)
+	}
+	return kept
+}
+
+// vSizeRun: per message type, the same valid encoding followed by an (unknown odd) record /
+// opaque tail of decreasing, then increasing size
+func vSizeRuns(r *vrng) [][]vRetCase {
+	var runs [][]vRetCase
+	seen := map[uint16]bool{}
+	sizes := []int{6000, 4000, 2500, 2499, 1200, 600, 601, 300, 120, 40, 8, 0, 8, 41, 300, 1300, 4000, 6001}
+	for _, c := range vAllBases {
+		if c.fail || len(c.b) < 2 {
+			continue
+		}
+		t := binary.BigEndian.Uint16(c.b)
+		if seen[t] || len(c.b) > 20000 {
+			continue
+		}
+		seen[t] = true
+		var run []vRetCase
+		for _, n := range sizes {
+			b := append([]byte{}, c.b...)
+			if n > 0 {
+				b = append(b, 0xfe, 0xff, 0xff, 0xff, 0xfd)
+				b = append(b, vBigSize(uint64(n))...)
+				b = append(b, r.bytes(n)...)
+			}
+			run = append(run, vRetCase{false, false, b})
+		}
+		runs = append(runs, run)
+	}
+	return runs
+}
+
+func vRetention(out *vWriter, r *vrng) {
+	var st vRetStat
+	all := append([]vRetCase{}, vAllBases...)
+	// failure messages also as complete packets
+	for _, c := range vAllBases {
+		if c.fail && len(c.b) <= 256 {
+			pad := 256 - len(c.b)
+			p := []byte{byte(len(c.b) >> 8), byte(len(c.b))}
+			p = append(p, c.b...)
+			p = append(p, byte(pad>>8), byte(pad))
+			p = append(p, make([]byte, pad)...)
+			all = append(all, vRetCase{true, true, p})
+		}
+	}
+	for i := len(all) - 1; i > 0; i-- {
+		j := r.intn(i + 1)
+		all[i], all[j] = all[j], all[i]
+	}
+	// (a) mixed windows
+	for lo := 0; lo < len(all); lo += 128 {
+		vRetWindow(out, all[lo:min(lo+128, len(all))], "mixed", &st, true)
+	}
+	// (b) same-type runs with shrinking, then growing sizes
+	runs := vSizeRuns(r)
+	for _, run := range runs {
+		vRetWindow(out, run, "size-run", &st, true)
+	}
+	// (c) concurrent: 8 goroutines over disjoint case streams; everything retained is verified
+	// after all of them are done (and the race detector watches in the thorough tier)
+	var conc []vRetCase
+	conc = append(conc, all...)
+	for _, run := range runs {
+		conc = append(conc, run...)
+	}
+	const G = 8
+	parts := make([][]vRetCase, G)
+	for i, c := range conc {
+		parts[i%G] = append(parts[i%G], c)
+	}
+	keptAll := make([][]*vKept, G)
+	stats := make([]vRetStat, G)
+	var wg sync.WaitGroup
+	for g := 0; g < G; g++ {
+		wg.Add(1)
+		go func(g int) {
+			defer wg.Done()
+			keptAll[g] = vRetWindow(nil, parts[g], "concurrent", &stats[g], false)
+		}(g)
+	}
+	wg.Wait()
+	for g := 0; g < G; g++ {
+		st.cases += stats[g].cases
+		st.kept += stats[g].kept
+		for _, k := range keptAll[g] {
+			if k.dump == "" {
+				continue
+			}
+			bad := ""
+			if d := vDump(k.m); d != k.dump {
+				bad = "retained value changed after later decodes"
+			} else if !bytes.Equal(k.encR, k.enc) {
+				bad = "encoded bytes returned earlier changed after later encodes"
+			} else if !k.noEnc {
+				if e, ok := vRetEncode(k.c, k.m); !ok || !bytes.Equal(e, k.enc) {
+					bad = "retained value re-encodes differently after later decodes"
+				}
+			}
+			if bad != "" {
+				vRetReport(out, &st, bad, "concurrent", k, parts[g], k.idx+1, len(parts[g]), "")
+			}
+		}
+	}
+	out.emit(vRow{"k": "retain_sum", "cases": st.cases, "kept": st.kept, "bad": st.bad, "size_runs": len(runs)})
 }
 
 // ---------------------------------------------------------------- onion failures
@@ -1919,6 +2180,7 @@ func vFailures(out *vWriter, master *vrng, only map[int]bool) {
 			msg := append([]byte{byte(c >> 8), byte(c)}, s...)
 			if m, err, _ := vDecFail(msg, false); err == nil && m != nil {
 				bases = append(bases, msg)
+				vAllBases = append(vAllBases, vRetCase{true, false, msg})
 			}
 			out.emit(vCheckFail(msg, false, "shape", int(c)))
 		}
